@@ -22,7 +22,7 @@ import itertools
 import weakref
 
 from vlib import cpbind, realfn, universe
-from vlib.framework import Stats, hyp_search, hyp_settings
+from vlib.framework import time_budget, BudgetExceeded, abandoned, Stats, hyp_search, hyp_settings
 from vlib.universe import Par, PO, POK, VP, KWO, VK
 from checks import c12
 
@@ -379,10 +379,21 @@ def shard_orders(arg):
     st = Stats()
     for spec in specs:
         for steps in step_sets(spec):
-            check_orders(spec, steps, st)
+            try:
+                with time_budget(8):
+                    check_orders(spec, steps, st)
+            except BudgetExceeded:
+                abandoned(st, 'a set of decoration steps (part A)')
         if not any(p.kind == PO for p in spec):
             for steps in method_step_sets(spec):
-                check_orders_method(spec, steps, st)
+                try:
+                    with time_budget(8):
+                        check_orders_method(spec, steps, st)
+                except BudgetExceeded:
+                    abandoned(st, 'a set of decoration steps on a method (part A)')
+        if st.extra['abandoned_cases'] >= 6:
+            st.note('part A shard given up after %d abandoned step sets' % st.extra['abandoned_cases'])
+            break
     return st
 
 
